@@ -4,6 +4,8 @@ import ast
 from ..project import dotted_parts, AnalysisError
 from ..callgraph import resolve_callee
 from ..tables import const_eval, Sym
+from ..gateval import GateEval, NotLiteral, CANON, same
+import numpy as np
 
 RULE_H2 = ('H2: every gate key a CliffordCircuit recorder stores is (a) the name of the attribute it is bound to, (b) a key of '
            'the tableau table _basic_clifford_dict and (c) of the to_universal_circuit table, and vice versa; each table maps '
@@ -68,16 +70,10 @@ def h2(proj, rep):
         if isinstance(k, ast.Constant):
             tab[k.value] = v
     _cmp_keys(rep, m, bd[1], 'H2', '_basic_clifford_dict', keys, set(tab))
+    ge = GateEval(proj)
     for k, v in sorted(tab.items()):
         n += 1
-        want = _gate_sym(k, block=True)
-        got = _tableau_value(proj, m, v)
-        if got is None:
-            rep.undecided('H2', f'_basic_clifford_dict[{k!r}]', f'value `{ast.unparse(v)}` not understood', m, v)
-        elif got in want:
-            rep.ok('H2', f'_basic_clifford_dict[{k!r}]', f'-> {got}', m, v)
-        else:
-            rep.violation('H2', f'_basic_clifford_dict[{k!r}]', f'maps to {got}, expected one of {sorted(want)}', m, v)
+        _cmp_value(rep, m, ge, v, f'_basic_clifford_dict[{k!r}]', _expected_matrix(k, block=True), k)
     # ---- universal circuit table + dispatch
     fu = proj.func(f'{CLS}.to_universal_circuit')
     utab = None
@@ -91,13 +87,7 @@ def h2(proj, rep):
         _cmp_keys(rep, m, utab, 'H2', 'to_universal_circuit table', keys, set(ut))
         for k, v in sorted(ut.items()):
             n += 1
-            r = proj.resolve_expr(m, v)
-            got = _canon_gate(proj, r, v)
-            want = _gate_sym(k, block=False)
-            if got in want:
-                rep.ok('H2', f'to_universal_circuit[{k!r}]', f'-> {got}', m, v)
-            else:
-                rep.violation('H2', f'to_universal_circuit[{k!r}]', f'maps to {got}, expected {sorted(want)}', m, v)
+            _cmp_value(rep, m, ge, v, f'to_universal_circuit[{k!r}]', _expected_matrix(k, block=False), k)
         # dispatch: len(gate)==2 -> single_qubit_gate(tab[gate[0]], gate[1]); else controlled_single_qubit_gate(tab[gate[0]], gate[1], gate[2])
         for c in ast.walk(fu.node):
             if isinstance(c, ast.Call) and isinstance(c.func, ast.Attribute) and c.func.attr in ('single_qubit_gate', 'controlled_single_qubit_gate'):
@@ -137,6 +127,34 @@ def h2(proj, rep):
     rep.count('H2.entries', n)
     rep.note('H2.recorder_keys', sorted(keys))
     return n, len(recorders)
+
+
+def _expected_matrix(key, block):
+    """Operator a key denotes: single-qubit K -> K; two-qubit CK -> diag(I,K) (tableau table) / K (controlled builder)."""
+    if len(key) == 1 and key in CANON:
+        return CANON[key], key
+    if len(key) == 2 and key[0] == 'C' and key[1] in CANON:
+        g = CANON[key[1]]
+        if block:
+            return np.block([[np.eye(2), np.zeros((2, 2))], [np.zeros((2, 2)), g]]), f'diag(I,{key[1]})'
+        return g, key[1]
+    return None, None
+
+
+def _cmp_value(rep, m, ge, v, construct, expected, key):
+    exp, name = expected
+    if exp is None:
+        rep.undecided('H2', construct, f'no canonical operator known for key {key!r}', m, v)
+        return
+    try:
+        got = ge.value(m, v)
+    except NotLiteral as e:
+        rep.undecided('H2', construct, f'value `{ast.unparse(v)}` is not a literal gate expression ({e})', m, v)
+        return
+    if same(got, exp):
+        rep.ok('H2', construct, f'`{ast.unparse(v)}` evaluates to {name}', m, v)
+    else:
+        rep.violation('H2', construct, f'`{ast.unparse(v)}` does not evaluate to the operator {name} that key {key!r} denotes', m, v)
 
 
 def _cmp_keys(rep, m, node, rule, what, want, got):
